@@ -3,6 +3,7 @@ package props
 import (
 	"bytes"
 	"fmt"
+	"runtime"
 	"strings"
 	"testing"
 	"unicode/utf8"
@@ -27,6 +28,7 @@ type seedCase struct {
 	PrimeM text `json:"prime_mnemonic,omitempty"`
 	PrimeP text `json:"prime_passphrase,omitempty"`
 	Primed bool `json:"primed,omitempty"`
+	GC     bool `json:"gc,omitempty"` // run the collector while the results are held
 }
 
 func short(s string) string {
@@ -68,6 +70,14 @@ var c04Check = register("C04", "c04.seed", func(c *seedCase) error {
 	}
 	if len(s2) != 64 || !bytes.Equal(s2, want) {
 		return failf(sig+" second-call", "second MnemonicToSeed(%s, %s) = %x, want %x", short(m), short(pw), s2, want)
+	}
+	if c.GC {
+		// a garbage collection while the caller still holds the seed (finalizers must not wipe it)
+		runtime.GC()
+		runtime.GC()
+		if !bytes.Equal(s2, want) || !bytes.Equal(s1, want) {
+			return failf(sig+" changed-after-gc", "a seed returned by MnemonicToSeed(%s, %s) changed after a garbage collection: %x", short(m), short(pw), s2)
+		}
 	}
 	for i := range s1[:cap(s1)] {
 		s1[:cap(s1)][i] ^= 0xa5
@@ -240,6 +250,7 @@ func TestC04_Seed(t *testing.T) {
 				c.PrimeM, c.PrimeP, c.M, c.P = c.M, c.P, c.PrimeM, c.PrimeP
 			}
 		}
+		c.GC = rapid.IntRange(0, 7).Draw(rt, "gc") == 0
 		c04Record(c)
 		cov.Class("shape=" + shape)
 		if k++; k%97 == 1 && len(m) < 300 {
